@@ -1,6 +1,7 @@
 package main
 
 import (
+	"sync"
 	"regexp"
 	"fmt"
 	"go/token"
@@ -144,7 +145,9 @@ func (e *Engine) Load(patterns []string) error {
 		for _, d := range defs {
 			e.defs[d.Name] = d
 			if d.GhostMap != "" {
+				ghostMapMu.Lock()
 				ghostMapSorts[d.Name] = d.GhostMap
+				ghostMapMu.Unlock()
 			}
 		}
 		e.contractFiles = append(e.contractFiles, f)
@@ -161,7 +164,9 @@ func (e *Engine) Load(patterns []string) error {
 		for _, d := range defs {
 			e.defs[d.Name] = d
 			if d.GhostMap != "" {
+				ghostMapMu.Lock()
 				ghostMapSorts[d.Name] = d.GhostMap
+				ghostMapMu.Unlock()
 			}
 		}
 		for _, c := range cs {
@@ -554,8 +559,11 @@ func (en *Engine) specLvalComps(e *SExpr, env map[string]types.Type, out compSet
 				}
 			}
 		}
-		if len(e.Args) == 1 && ghostMapSorts[e.Name] != "" {
-			out.add(sComp{Name: "ghost." + e.Name, Kind: scGhost, Sort: ghostMapSorts[e.Name]})
+		ghostMapMu.Lock()
+		gms := ghostMapSorts[e.Name]
+		ghostMapMu.Unlock()
+		if len(e.Args) == 1 && gms != "" {
+			out.add(sComp{Name: "ghost." + e.Name, Kind: scGhost, Sort: gms})
 		}
 		if e.Name == "all" && len(e.Args) == 1 {
 			t := en.specStaticType(e.Args[0], env)
@@ -583,6 +591,7 @@ func (e *Engine) funcTypeContract(cc *ssa.CallCommon) *Contract {
 }
 
 var ghostMapSorts = map[string]string{}
+var ghostMapMu sync.Mutex
 
 // goEnv: environment for `go list` (offline, the repository's own toolchain first on PATH).
 func goEnv() []string {
